@@ -325,6 +325,17 @@ FIXED = [
     {"mode": "name", "template": "%Title{%Base()}%Ext()", "filter": "%text.Title{%Name()} != ''", "mutated": "ambiguous after qualified (other template)", "expect": 3},
     {"mode": "name", "template": "%video.Duration()_%Duration()", "mutated": "ambiguous after qualified", "expect": 3},
     {"mode": "name", "template": "%Name()", "sort": "%Width()", "filter": "%image.Width() is not None", "mutated": "ambiguous after qualified (other template)", "expect": 3},
+    # templates that consist of blanks only: the expression they render to is empty
+    {"mode": "name", "template": "x%Name()", "filter": "\t", "mutated": "blank", "expect": 4},
+    {"mode": "name", "template": "x%Name()", "filter": "\t \t", "mutated": "blank", "expect": 4},
+    {"mode": "name", "template": "x%Name()", "filter": " ", "mutated": "blank", "expect": 4},
+    {"mode": "name", "template": "x%Name()", "sort": "\t", "mutated": "blank", "expect": 4},
+    {"mode": "name", "template": "x%Name()", "sort": "  ", "mutated": "blank", "expect": 4},
+    {"mode": "name", "template": "\t", "mutated": "blank"},
+    # numeric arguments longer than the interpreter's integer-conversion limit (4300 digits)
+    {"mode": "name", "template": "%Count(start=" + "1" * 5000 + ")%Ext()", "mutated": "huge number", "expect": 3},
+    {"mode": "name", "template": "x%Name()", "filter": "%Count(" + "9" * 4301 + ") > 0", "mutated": "huge number", "expect": 3},
+    {"mode": "name", "template": "x%Name()", "sort": "%Trim(-" + "7" * 6000 + "){%Name()}", "mutated": "huge number", "expect": 3},
     {"mode": "name", "template": "", "mutated": "empty"},
     {"mode": "name", "template": "%Name()", "filter": "", "mutated": "empty"},
 ]
